@@ -72,7 +72,20 @@ pub fn digest_line(seed: u64, i: u64) -> String {
     if i % 5 == 2 {
         src.bare_eof = true;
     }
-    match flacenc::encode_with_fixed_block_size(&ver, src, block) {
+    // the library's own MemSource over a sample vector that is NOT a whole number of inter-channel
+    // samples (a stray value at the end, delivered in a last read of its own): whatever the
+    // library does with the stray value, it must not depend on the feature set
+    let result = if i % 17 == 9 {
+        let mut samples = audio.samples.clone();
+        for k in 0..(1 + (i as usize / 17) % channels.max(2).min(3)).min(channels.saturating_sub(1)).max(usize::from(channels > 1)) {
+            samples.push(1 + k as i32);
+        }
+        let msrc = flacenc::source::MemSource::from_samples(&samples, channels, bps, rate);
+        flacenc::encode_with_fixed_block_size(&ver, msrc, block)
+    } else {
+        flacenc::encode_with_fixed_block_size(&ver, src, block)
+    };
+    match result {
         Ok(stream) => {
             let mut sink = ByteSink::new();
             match stream.write(&mut sink) {
